@@ -1,6 +1,6 @@
 (* Model/Close.v -- C16: teardown of sessions, listeners and the server (definitions only).
 
-   Source: c2/session.go (Close, close, listen, shutdown, Wake), c2/vars.go (receiveSingle,
+   Source: c2/session.go (Close, close, listen, shutdown, Wake, queue), c2/vars.go (receiveSingle,
    case SvShutdown), c2/server.go (listen, shutdown, Close, Remove), c2/listener.go (listen,
    Close), c2/types.go (eventer.listen), c2/state.go (the Closing/SendClosed/... predicates).
 
@@ -11,11 +11,17 @@
    channel are faults (a Go run-time panic).  [run] interleaves any pool of threads along any
    schedule (a list of thread indices).
 
-   [ver] selects the step list: [Old] is the tree before the two C16 repairs (shutdown closes
-   s.ch after Unlock without a flag; the eventer loop never notices its closed channel),
-   [New] is the repaired tree.  [fuse] = true glues the three unlocked "flag test; channel
-   send" pairs (Wake, queue, Remove) into one step; the code does NOT do that, the switch only
-   serves to state precisely where a send on a closed channel can come from. *)
+   [ver] selects the step list: [Old] is the tree before the four C16 repairs
+     (1) shutdown closed s.ch after Unlock and without a flag (two shutdowns => double close);
+     (2) the eventer loop never noticed its closed channel (spins for ever);
+     (3) Wake / queue: a send that loses the race against shutdown's close panicked
+         (now recovered: the send is dropped, as if the flag test had seen the close);
+     (4) the final exchange of a closing client ran on the base context unless that was
+         already cancelled at the check: a cancel arriving later aborted the Connect and the
+         shutdown notice was never sent (now: always on its own 10 s context);
+   [New] is the repaired tree.  What is NOT repaired and stays in [New]: Server.Remove tests
+   IsActive and then sends on delSession without a lock; Server.shutdown closes delSession;
+   the send can therefore hit a closed channel ([SendOnClosed NDelS]). *)
 From XMT Require Import Base.Prelude.
 
 Inductive chan := Nil | Open | Closed.
@@ -28,8 +34,8 @@ Inductive fault := DoubleClose (c : cname) | CloseNil (c : cname) | SendOnClosed
 Definition is_send_fault (f : fault) : bool := match f with SendOnClosed _ => true | _ => false end.
 
 Inductive ver := Old | New.
-Record mode := Mode { m_ver : ver; m_fuse : bool }.
-Definition is_new (m : mode) : bool := match m_ver m with New => true | Old => false end.
+Definition mode := ver.
+Definition is_new (m : mode) : bool := match m with New => true | Old => false end.
 
 (* One session (either end).  The booleans are the bits of the state word that matter for
    closing; state.Set/Unset are taken as atomic (C13). *)
@@ -125,7 +131,7 @@ Inductive pc :=
 (* (s *Session).close(w) on a client session: Session.Close is close(true) *)
 | CC0 (w : bool) | CC1 (w : bool) | CC2 (w : bool) | CC3 (w : bool) | CC4 (w : bool) | CC5
 (* the client's listen goroutine *)
-| CLs | CL0 | CR0 | CR1 | CR2 | CR3 | CR4 | CR5 | CL1 | CL2 | CL3 | CL4
+| CLs | CL0 | CR0 | CR1 | CR2 | CR3 | CR4 | CR5 | CL1 | CL2 | CL3 | CL4 | CL4o
 (* the client's eventer goroutine; context cancellation *)
 | CEs | CE0 | CX
 (* (s *Session).shutdown() on either side; x = "Closed was already set" *)
@@ -186,12 +192,10 @@ Definition exec (m : mode) (p : pc) (w : world) : outcome :=
   | CC1 b => Step (put Cli (unset_channel c) w) (CC2 b)                        (* Unset x3 (channel bits) *)
   | CC2 b => Step (put Cli (set_closing c) w) (CC3 b)                          (* Set(stateClosing) *)
   | CC3 b =>                                                                   (* Wake(): test WakeClosed *)
-      if WakeClosed c then Step w (if b then CC5 else PDone)
-      else if m_fuse m then
-        (if is_closed (wake c) then Fault (SendOnClosed NWake) else Step (put Cli (set_waketok c) w) (if b then CC5 else PDone))
-      else Step w (CC4 b)
+      if WakeClosed c then Step w (if b then CC5 else PDone) else Step w (CC4 b)
   | CC4 b =>                                                                   (* select { case s.wake <- wake: default: } *)
-      if is_closed (wake c) then Fault (SendOnClosed NWake)
+      if is_closed (wake c) then
+        (if is_new m then Step w (if b then CC5 else PDone) else Fault (SendOnClosed NWake))
       else Step (put Cli (set_waketok c) w) (if b then CC5 else PDone)
   | CC5 => if is_closed (done c) then Step w PDone else Blocked                (* <-s.ch *)
   (* ---- client listen goroutine --------------------------------------------------------- *)
@@ -210,17 +214,20 @@ Definition exec (m : mode) (p : pc) (w : world) : outcome :=
   | CR1 => Step w (if Closing c then CL0 else CR2)                             (* close(false): if Closing return *)
   | CR2 => Step (put Cli (unset_channel c) w) CR3
   | CR3 => Step (put Cli (set_closing c) w) CR4
-  | CR4 =>
-      if WakeClosed c then Step w CL0
-      else if m_fuse m then
-        (if is_closed (wake c) then Fault (SendOnClosed NWake) else Step (put Cli (set_waketok c) w) CL0)
-      else Step w CR5
-  | CR5 => if is_closed (wake c) then Fault (SendOnClosed NWake) else Step (put Cli (set_waketok c) w) CL0
+  | CR4 => if WakeClosed c then Step w CL0 else Step w CR5
+  | CR5 => if is_closed (wake c) then (if is_new m then Step w CL0 else Fault (SendOnClosed NWake))
+           else Step (put Cli (set_waketok c) w) CL0
   | CL1 => Step (put Cli (set_peek true c) w) CL2                              (* s.peek = SvShutdown *)
   | CL2 => Step (put Cli (set_shutdown c) w) CL3                               (* Set(stateShutdown) *)
-  | CL3 => Step (put Cli (unset_channel c) w) CL4                              (* Unset x3 *)
+  | CL3 =>                                                                     (* Unset x3; the context for the last exchange *)
+      Step (put Cli (unset_channel c) w) (if is_new m then CL4 else if ctxdone w then CL4 else CL4o)
   | CL4 =>                                                                     (* Connect + session(): the last exchange *)
       if reachable w then
+        Step (set_sent (peek c) (set_c2s (if peek c then S (c2s w) else c2s w) (put Cli (set_peek false c) w))) (SD0 Cli RDone)
+      else Step w (SD0 Cli RDone)
+  | CL4o =>                                                                    (* old: the last exchange on the base context *)
+      if ctxdone w then Step w (SD0 Cli RDone)                                 (* Connect: context canceled; Closing => break *)
+      else if reachable w then
         Step (set_sent (peek c) (set_c2s (if peek c then S (c2s w) else c2s w) (put Cli (set_peek false c) w))) (SD0 Cli RDone)
       else Step w (SD0 Cli RDone)
   (* ---- client eventer goroutine, context --------------------------------------------------- *)
@@ -240,11 +247,7 @@ Definition exec (m : mode) (p : pc) (w : world) : outcome :=
       | inl s' => Step (put d s' w) (match d with Cli => SD3 d r (closed s) | Srv => SD1 d r (closed s) end)
       end
   | SD1 d r x =>                                                               (* s.s.Remove(s.ID, false): IsActive *)
-      if server_active w then
-        (if m_fuse m then
-           (if is_closed (sv_dels w) then Fault (SendOnClosed NDelS) else Step (set_delq (S (delq w)) w) (SD3 d r x))
-         else Step w (SD2 d r x))
-      else Step w (SD3 d r x)
+      Step w (if server_active w then SD2 d r x else SD3 d r x)
   | SD2 d r x =>                                                               (* s.delSession <- hash *)
       if is_closed (sv_dels w) then Fault (SendOnClosed NDelS) else Step (set_delq (S (delq w)) w) (SD3 d r x)
   | SD3 d r x =>                                                               (* s.m.close(); [close(s.ch)]; Unlock *)
@@ -282,17 +285,10 @@ Definition exec (m : mode) (p : pc) (w : world) : outcome :=
       if g then match c2s w with O => Blocked | S n => Step (set_c2s n w) SH1 end
       else Step w SH1
   | SH1 => Step w (if Closing v || SendClosed v then SH4 else SH2)             (* write(): Closing || SendClosed *)
-  | SH2 =>                                                                     (* queue(): SendClosed *)
-      if SendClosed v then Step w SH4
-      else if m_fuse m then (if is_closed (send v) then Fault (SendOnClosed NSend) else Step w SH4)
-      else Step w SH3
-  | SH3 => if is_closed (send v) then Fault (SendOnClosed NSend) else Step w SH4 (* s.send <- ack *)
-  | SH4 =>
-      if server_active w then
-        (if m_fuse m then
-           (if is_closed (sv_dels w) then Fault (SendOnClosed NDelS) else Step (set_delq (S (delq w)) w) SH6)
-         else Step w SH5)
-      else Step w SH6
+  | SH2 => Step w (if SendClosed v then SH4 else SH3)                          (* queue(): SendClosed *)
+  | SH3 =>                                                                     (* s.send <- ack *)
+      if is_closed (send v) then (if is_new m then Step w SH4 else Fault (SendOnClosed NSend)) else Step w SH4
+  | SH4 => Step w (if server_active w then SH5 else SH6)                       (* Remove(id, false): IsActive *)
   | SH5 => if is_closed (sv_dels w) then Fault (SendOnClosed NDelS) else Step (set_delq (S (delq w)) w) SH6
   | SH6 => Step (put Srv (set_shutwait v) w) SH7
   | SH7 => Step w (if Closing v then PDone else SH8)
@@ -442,7 +438,7 @@ Definition quiescent_pc (p : pc) : bool :=
   match p with PDone => true | _ => false end.
 
 (* the step list the tree is at *)
-Definition tree_mode : mode := Mode New false.
+Definition tree_mode : mode := New.
 
 (* A case: the initial protocol state (Packets() called on the client / on the server-side
    session, channel mode, network reachable, client calls back by itself), the calls that were
@@ -451,7 +447,11 @@ Definition tree_mode : mode := Mode New false.
    implementation at the end: panicked?, every call returned?, the projection of the final
    state (the last element is the number of goroutines of the client session still alive). *)
 Inductive case :=
-| CRun (cpk spk chm rch cbk : bool) (phases : list (list Z)) (o_panic : bool) (o_returned : bool) (o_final : list Z).
+| CRun (cpk spk chm rch cbk : bool) (phases : list (list Z)) (o_panic : bool) (o_returned : bool) (o_final : list Z)
+(* racing groups through the real receiveSingle / Session.Close on a server-side session that
+   was listed without a network: the calls of one group, did any group panic, was every session
+   closed, released and unlisted afterwards *)
+| CStress (calls : list Z) (o_panic : bool) (o_all_closed : bool).
 
 Fixpoint run_phases (m : mode) (phases : list (list Z)) (pool : list pc) (w : world) : rstate :=
   match phases with
@@ -476,4 +476,34 @@ Definition check (c : case) : bool :=
           negb o_panic && Bool.eqb (forallb quiescent_pc (skipn (length service) pool)) o_returned
           && zlist_eqb (obs_world pool w) o_final
       end
+  | CStress calls o_panic o_all_closed =>
+      match model_run tree_mode false false false true false [calls] with
+      | Faulted _ _ => o_panic
+      | Running pool w =>
+          negb o_panic &&
+          Bool.eqb (closed (srv w) && is_closed (done (srv w)) && negb (listed w)) o_all_closed
+      end
   end.
+
+(* ---- vocabulary of the theorems (Proofs/Close.v, Props/C16.v) ------------------------------------ *)
+(* the calls a program can issue at any moment, any number of times, from any thread:
+   Session.Close on the client (waiting or not), cancelling the client's context, Session.Close on
+   the server-side session, Server.Remove(id, true), a handler goroutine running
+   receiveSingle(SvShutdown) (for a delivered packet or one a peer sends on its own),
+   Server.Close, Listener.Close, and second starts of the per-object goroutines (no-ops) *)
+Definition entry (p : pc) : bool :=
+  match p with
+  | CC0 _ | CX | SC0 RDone | SR0 | SH0 _ | SV0 | LC0 RDone | CLs | CEs | LTs | SLs | PDone => true
+  | _ => false
+  end.
+(* the goroutines of a registered pair come first: 0 = client listen, 1 = client eventer,
+   2 = server loop, 3 = listener, 4 = the handler serving delivered SvShutdown packets *)
+Definition service_pool : list pc := map pc_of_code service.
+Definition pool0 (calls : list pc) : list pc := service_pool ++ calls.
+
+Definition faulted (r : rstate) : bool := match r with Faulted _ _ => true | Running _ _ => false end.
+(* the one fault the repaired tree can still reach (see the header) *)
+Definition is_remove_race (f : fault) : bool := match f with SendOnClosed NDelS => true | _ => false end.
+
+Fixpoint count_occ_nat (i : nat) (l : list nat) : nat :=
+  match l with [] => O | x :: t => (if Nat.eqb x i then 1 else 0) + count_occ_nat i t end.
